@@ -429,7 +429,7 @@ func rulePadCallSites(p *Program, r *Result) {
 	ro := p.Roles()
 	var secretField *types.Var
 	n := 0
-	for _, fn := range p.FuncsIn(func(path string) bool { return path == modPath }) {
+	for _, fn := range p.UnitsIn(func(path string) bool { return path == modPath }) {
 		for _, c := range allCalls(fn) {
 			call, ok := c.(*ssa.Call)
 			if !ok || !containsFn(ro.PadFns, call.Common().StaticCallee()) {
